@@ -1268,6 +1268,8 @@ class Interp:
                 continue
             seen.add(s.key())
             if isinstance(stmt, ast.While):
+                if not self.rule.loop_enter(self, stmt, s):
+                    continue
                 res, raises = self.truth_fork(s, stmt.test)
                 outs += raises
             else:
@@ -1416,6 +1418,10 @@ class BaseRule:
 
     def loop_break(self, it, stmt, st):
         pass
+
+    def loop_enter(self, it, stmt, st):
+        """called at the head of a `while` loop for each state reaching it; False abandons the path (bounded unrolling)"""
+        return True
 
     def default_value(self, it, fi, p, d):
         return None
